@@ -160,7 +160,10 @@ def generate(rng, tier):
             pos2 = {Fr(0)}
             while len(pos2) < n:
                 pos2.add(Fr(rng.randint(1, 6 * met * d2), d2))
-            cases.append(_mk_case("tm_reseat", met, sorted(pos2), bpms, init=Fr(rng.randint(-2000, 2000))))
+            c = _mk_case("tm_reseat", met, sorted(pos2), bpms, init=Fr(rng.randint(-2000, 2000)))
+            if rng.random() < 0.5:
+                c["history"] = True
+            cases.append(c)
     return cases
 
 
@@ -203,6 +206,19 @@ def execute(case):
                 return {"v": [_bcoj(b) for b in tm.bpm_changes_offset]}
             if case["kind"] == "tm_reseat":
                 tm0 = TimingMap.from_bpm_changes_snap(init, _mk(case["l"]), reseat=False)
+                if case.get("history"):
+                    # the SAME tempo list reached through a history of the map object: the map is first built with other
+                    # values, queried (anything derived from the list may be remembered), then its changes are set in place
+                    want = [(b.offset, b.bpm, b.metronome) for b in tm0.bpm_changes_offset]
+                    from reamber.algorithms.timing.utils.snap import Snap
+                    for k, b in enumerate(tm0.bpm_changes_offset):
+                        if k:
+                            b.offset = b.offset + Fr(k, 7)
+                            b.bpm = b.bpm * 2
+                    tm0.bpm_changes_snap()
+                    tm0.offsets([Snap(0, 0, case["l"][0]["met"])])
+                    for b, (o, bp, me) in zip(tm0.bpm_changes_offset, want):
+                        b.offset, b.bpm, b.metronome = o, bp, me
                 bco_in = [_bcoj(b) for b in tm0.bpm_changes_offset]
                 tm = tm0.reseat()
                 return {"bco_in": bco_in, "v": [_bcoj(b) for b in tm.bpm_changes_offset]}
